@@ -55,6 +55,15 @@ func Sigmoid(X tensor.Tensor) (tensor.Tensor, error) {
 
 // ReLU performs the ReLU operation on a tensor.
 func ReLU(X tensor.Tensor) (tensor.Tensor, error) {
+	// For floats max(x, 0) is computed per element: multiplying x with the outcome of
+	// x > 0 turns -Inf into NaN (-Inf * 0).
+	switch X.Dtype() {
+	case tensor.Float32:
+		return X.Apply(relu[float32])
+	case tensor.Float64:
+		return X.Apply(relu[float64])
+	}
+
 	typedZero, err := GetValueAsTensorType(0.0, X.Dtype())
 	if err != nil {
 		return nil, err
@@ -66,4 +75,13 @@ func ReLU(X tensor.Tensor) (tensor.Tensor, error) {
 	}
 
 	return tensor.Mul(X, comparison)
+}
+
+// relu returns max(x, 0); NaN stays NaN.
+func relu[T FloatType](x T) T {
+	if x > 0 || x != x {
+		return x
+	}
+
+	return 0
 }
